@@ -90,7 +90,8 @@ func (d *Reader) Close() error {
 		return d.r.Err()
 	case d.crc16 && d.header.crc != d.crcw.Sum():
 		return ErrChecksum
-	case d.header.size != d.state.pos-int32(d.state.buf.Len()):
+	case d.state.buf.Len() > 0 || d.header.size != d.state.pos:
+		// Decoded data the caller never read, or a stream that does not decode to the declared size.
 		return ErrChecksum
 	default:
 		return nil
